@@ -9,8 +9,8 @@ FUNCTIONS = [
     "batchie.data.Screen.plates / get_plate / Plate.plate_id",
 ]
 BOUNDS = {
-    "quick": "k symbolic and unbounded (k>=1); P<=4 single-sample plates over <=3 samples with a solver-chosen assignment, every observed pattern of one plate, symbolic scores (every allowed plate can be the minimum), selection histories run with the real select_next_plate until nothing is allowed",
-    "thorough": "P<=6 plates, 3 samples",
+    "quick": "k symbolic and unbounded (k>=1); P<=5 single-sample plates over <=3 samples with a solver-chosen assignment, every observed pattern of one plate, symbolic scores (every allowed plate can be the minimum), selection histories run with the real select_next_plate until nothing is allowed",
+    "thorough": "P<=7 plates, 3 samples",
 }
 ASSUMPTIONS = [
     "selection histories start from an empty batch (the property speaks of selections within a batch)",
@@ -25,7 +25,7 @@ TASK_QUOTA = 80
 def configs(tier, seed):
     q = tier == "quick"
     out = []
-    for P in ((2, 3, 4) if q else (2, 3, 4, 5, 6)):
+    for P in ((2, 3, 4, 5) if q else (2, 3, 4, 5, 6, 7)):
         out.append(dict(name="histories P=%d" % P, h="hist", P=P, S=min(3, P)))
     out.append(dict(name="multi-sample plate refused", h="multi"))
     return out
